@@ -68,6 +68,17 @@ def _run_property(prop, tier, seed, overlay, write, root, rename) -> int:
             LAST["function_pairs"] = list((prog.rename_diag or {}).get("function_pairs", []))
         ctx = Ctx(prop, prog, tier=tier, seed=seed, write=write, t0=t0)
         mod.run(ctx)
+        # common to every property: in the functions its rules looked at (and their helpers) no coroutine of the package is called and dropped
+        from .shared import dropped_coroutines
+        from .model import norm as _norm
+        looked_at = [prog.funcs[q] for q in list(ctx.analysed["functions"]) if q in prog.funcs]
+        for fq, node, callee in dropped_coroutines(prog, looked_at):
+            ctx.ob(f"{prop}.await", fq, False, "", func=fq, file=prog.funcs[fq].module.rel, node=node, construct=_norm(node)[:80],
+                   fail=f"`{_norm(node)[:60]}` calls the coroutine function {callee.split('.')[-1]} without awaiting it: the call never runs")
+        from .shared import dropped_exceptions
+        for fq, node, cls_ in dropped_exceptions(prog, looked_at):
+            ctx.ob(f"{prop}.raise", fq, False, "", func=fq, file=prog.funcs[fq].module.rel, node=node, construct=_norm(node)[:80],
+                   fail=f"`{_norm(node)[:60]}` builds a {cls_.split('.')[-1]} and drops it (no `raise`): the check it belongs to rejects nothing")
         if tier == "thorough" and overlay is None:
             thorough(ctx, mod)
         return ctx.finish()
